@@ -313,6 +313,11 @@ def run(ctx):
                          "indices, duplicates, short SHORT/INT values) x 6 endings, expected decoding and views computed by TLC at the real UA length 128; "
                          "events: random TLV streams (any u16 index, lengths to 65535, cuts, garbage tails) and sample config blocks; distinct = blocks")
     ctx.exhaustive = True
+    # history freedom of the functions of their input behind this property (Pure.tla)
+    from vt.checks import xpure
+
+    xpure.pure_part(ctx, xpure.entries_for("C02"))
+
 
 
 def views_part(ctx, beacon):
